@@ -72,6 +72,23 @@ def gen_C17():
     f.n("persist_head_store_before_wake", order("persist_head", "self.head.store", "self.sender.wake()"), st)
     f.n("close_swap_before_wake_r", order("close", "self.open.swap", "self.receiver.wake()"), st)
     f.n("close_swap_before_wake_s", order("close", "self.open.swap", "self.sender.wake()"), st)
+    # which close protocol: 1 if `close` decides who frees by `released.swap(true, ..)` after its last wake
+    # (candidate repair of the use-after-free), 0 if the result of `open.swap` decides (current code)
+    def last_out():
+        if s is None:
+            return None
+        b = fn_body(s, "close")
+        if b is None:
+            return None
+        has_rel = re.search(r"self\s*\.\s*released\s*\.\s*swap\s*\(\s*true", b) is not None
+        has_was = re.search(r"let\s+was_open\s*=\s*self\s*\.\s*open\s*\.\s*swap", b) is not None
+        if has_rel and not has_was:
+            i, j = b.rfind(".wake()"), b.find("released")
+            return 1 if 0 <= i < j else None
+        if has_was and not has_rel:
+            return 0
+        return None
+    f.n("close_last_out_frees", last_out(), st + " fn close")
     # AtomicWaker (external crate re-exported by sync/primitive.rs): version from Cargo.lock
     lock = read("Cargo.lock")
     aw_src, aw_origin = None, "atomic-waker (not found)"
